@@ -2648,9 +2648,14 @@ Vinquire(int32  vkey,     /* IN: vgroup key */
     if (vg->otag != DFTAG_VG)
         HGOTO_ERROR(DFE_ARGS, FAIL);
 
-    /* copy vgroup name if requested.  Assumes 'vgname' has sufficient space */
-    if (vgname != NULL)
-        strcpy(vgname, vg->vgname);
+    /* copy vgroup name if requested.  Assumes 'vgname' has sufficient space.
+       A vgroup may have no name at all (same handling as Vgetname) */
+    if (vgname != NULL) {
+        if (vg->vgname != NULL)
+            strcpy(vgname, vg->vgname);
+        else
+            vgname[0] = '\0';
+    }
 
     /* set number of entries in vgroup if requested */
     if (nentries != NULL)
